@@ -12,7 +12,7 @@ from cgv.harness import Violation, lib
 
 ID = "C19"
 RULE = (
-    "cases: (callable, circuit, arguments, edit script) with the callable drawn from a registry of 78 "
+    "cases: (callable, circuit, arguments, edit script) with the callable drawn from a registry of 79 "
     "public entry points -- tx: strip_io/outputs/inputs/blackboxes, relabel, subcircuit, ternary, miter "
     "(self and pair), unroll, sequential_unroll, sensitization_transform (with/without endpoints), "
     "sensitivity_transform, limit_fanin, limit_fanout, acyclic_unroll, supergates (both forms), "
@@ -67,6 +67,7 @@ REG = {
     "tx.miter_pair": lambda c, c2, p, t: cg.tx.miter(c, c2),
     "tx.unroll": lambda c, c2, p, t: cg.tx.unroll(c, 1 + p % 3, _state_io(c, p)),
     "tx.sequential_unroll": lambda c, c2, p, t: cg.tx.sequential_unroll(c, 1 + p % 3, "d", "q", add_flop_outputs=bool(p % 2)),
+    "tx.sequential_unroll_ign": lambda c, c2, p, t: cg.tx.sequential_unroll(c, 1 + p % 2, "d", "q", ignore_pins=["qn", "clk", "en", "nq", "Y"][: 1 + p % 5]),
     "tx.sensitization_transform": lambda c, c2, p, t: cg.tx.sensitization_transform(c, _first(c.nodes(), p)),
     "tx.sensitization_transform_ep": lambda c, c2, p, t: cg.tx.sensitization_transform(c, _first(c.nodes(), p), _first(c.outputs(), p // 3)),
     "tx.sensitivity_transform": lambda c, c2, p, t: cg.tx.sensitivity_transform(c, _first(c.nodes(), p)),
@@ -180,12 +181,13 @@ def _case(draw, ctx):
     small = fn in SMALL_ONLY
     kind = draw(st.sampled_from(["plain", "plain", "bb", "cyclic"]))
     if kind == "plain":
-        spec = draw(S.circuit_spec(min_inputs=1, max_inputs=3 if small else 4, min_gates=1, max_gates=6 if small else 9,
+        spec = draw(S.circuit_spec(min_inputs=0 if draw(st.integers(0, 4)) == 0 else 1, max_inputs=3 if small else 4, min_gates=1, max_gates=6 if small else 9,
                                    max_fanin=3 if small else 4, io_outputs=True,
                                    pools=(S.BENIGN, S.ESCAPED) if draw(st.integers(0, 3)) == 0 else (S.BENIGN,)))
     elif kind == "bb":
+        bpools = (S.BENIGN,) if draw(st.booleans()) else (S.BENIGN[:8], ["u0_q", "u0_qn", "u0_d", "u1_qn", "u0_nq", "u0_Y", "u0_clk"])
         spec = draw(S.circuit_spec(min_inputs=1, max_inputs=3, min_gates=1, max_gates=6, max_fanin=3, max_insts=2,
-                                   unconnected_pins=draw(st.booleans())))
+                                   unconnected_pins=draw(st.booleans()), pools=bpools))
     else:
         spec = draw(S.circuit_spec(min_inputs=0, max_inputs=2, min_gates=2, max_gates=6, max_fanin=3, cyclic=True))
     spec2 = draw(S.circuit_spec(min_inputs=1, max_inputs=3, min_gates=1, max_gates=5, max_fanin=3))
